@@ -25,6 +25,8 @@ MUTANTS = [
     {"name": "store-max-without-plus-one", "file": "src/broker/store.rs", "old": "let new_epoch = max(exsting_largest_epoch, self.global_epoch + 1);", "new": "let new_epoch = max(exsting_largest_epoch, self.global_epoch);", "expect": "C13.D1:store"},
     {"name": "fetch-min-instead-of-max", "file": "src/broker/epoch.rs", "old": "                max_epoch = max(max_epoch, epoch);", "new": "                max_epoch = std::cmp::min(max(max_epoch, 1), epoch);", "expect": "C13.D1:fetch"},
     {"name": "paginated-proxy-list", "file": "src/broker/service.rs", "old": "let proxy_addresses = self.storage.get_proxy_addresses(None, None).await?;\n        let EpochFetchResult {", "new": "let proxy_addresses = self.storage.get_proxy_addresses(None, Some(100)).await?;\n        let EpochFetchResult {", "expect": "C13.D1:all-proxies"},
+    {"name": "listing-skips-failed-proxies", "file": "src/broker/query.rs", "old": "        let it = self.store.all_proxies.keys().skip(offset);", "new": "        let failed = &self.store.failed_proxies;\n        let it = self\n            .store\n            .all_proxies\n            .keys()\n            .filter(move |a| !failed.contains(*a))\n            .skip(offset);", "expect": "C13.D3:store:lists-every-proxy"},
+    {"name": "storage-default-page-size", "file": "src/broker/storage.rs", "old": "        let addresses = self.store.read().get_proxies_with_pagination(offset, limit);", "new": "        let addresses = self\n            .store\n            .read()\n            .get_proxies_with_pagination(offset, limit.or(Some(100)));", "expect": "C13.D3:storage:memory:pagination-verbatim"},
 ]
 
 
@@ -32,6 +34,8 @@ def run(ctx):
     F = ctx.F
     ctx.rule("C13.D1", "strictness chain: recovered epoch = max(m + k, g + 1), k >= 1 through service and every storage impl, assigned to global and every cluster; m = max over all proxies")
     ctx.rule("C13.D2", "MetaStore::restore clock guard (never installs a snapshot with a lower global epoch)")
+    ctx.rule("C13.D3", "the recovery polls every recorded proxy: the storage back-ends pass offset / limit through unchanged and the store's listing drops no address (only skip(offset) / take(limit) driven by its parameters)")
+    _polls_everyone(ctx)
     # ------------------------------------------------------------- service -> storage
     svc = [b for b in F.all_bodies(bins=False) if b.kind == "Closure" and b.path.startswith("broker::service::MemBrokerService::recover_epoch::")]
     k1s = []
@@ -189,3 +193,49 @@ class _Sub:
 
     def analysed(self, *b):
         return self.ctx.analysed(*b)
+
+
+def _polls_everyone(ctx):
+    """m = max over ALL recorded proxies: a proxy that is left out of the poll may hold the largest epoch, and every view
+    served after the recovery is then not newer than what that proxy holds"""
+    from ..lib import lossy_ops, producers
+    F = ctx.F
+    R = "C13.D3"
+    n = 0
+    for b in F.all_bodies(bins=False):
+        if b.is_mock() or "tests::" in b.path or not b.path.endswith("::get_proxy_addresses::{closure#0}") or "MetaStorage>" not in b.path:
+            continue
+        n += 1
+        ctx.analysed(b)
+        du = DefUse(b)
+        cs = [(bb, t) for bb, t in b.calls() if (callee_of(t) or "").endswith("get_proxies_with_pagination")]
+        which = "memory" if "MemoryStorage" in b.path else "external"
+        if not cs:
+            ctx.violation(R, "storage:%s:delegates" % which, site(b), "%s does not call get_proxies_with_pagination" % b.path)
+            continue
+        bad = []
+        for a in cs[0][1]["args"][1:3]:
+            pr = producers(b, du, a)
+            if any(k_ in ("const", "call", "via") for k_, c in pr):
+                bad.append(pr)
+        ctx.check(not bad, R, "storage:%s:pagination-verbatim" % which, site(b, cs[0][0]), ok="offset / limit handed to the store as received",
+                  bad="offset / limit are altered before they reach the store (a default page size?): with None the caller means `all`, the recovery would poll only the first page")
+    ctx.floor(R, "storage back-ends with get_proxy_addresses", n, 2)
+    q = F.one("MetaStoreQuery::get_proxies_with_pagination")
+    if q is None:
+        ctx.lost(R, "get_proxies_with_pagination", "not found")
+        return
+    ctx.analysed(q)
+    du = DefUse(q)
+    ret = du.slice_local(0)
+    lo = [x for x in lossy_ops(q, ret) if x[0] not in ("skip", "take")]
+    filt = [c.rsplit("::", 1)[-1] for c in list(ret.calls) + list(ret.decls) if c.rsplit("::", 1)[-1] in ("filter", "filter_map", "retain", "dedup", "skip_while", "take_while")]
+    ctx.check(ret.has_field("MetaStore", "all_proxies") and not lo and not filt, R, "store:lists-every-proxy", site(q), ok="all_proxies.keys() with skip(offset) / take(limit) only",
+              bad="the proxy listing drops addresses (%s): a recorded proxy that is not listed is never asked for its epoch during recovery" % sorted(set(filt + [x[0] for x in lo])))
+    for nm in ("skip", "take"):
+        for c, bbs in ret.calls.items():
+            if c.rsplit("::", 1)[-1] == nm:
+                for bb in bbs:
+                    t = q.blocks[bb].term
+                    sl = du.slice_operand(t["args"][1])
+                    ctx.check(bool(sl.params) and not [k for k in sl.const_ints() if k not in (0,)], R, "store:%s-from-parameter" % nm, site(q, bb), ok="%s(..) is driven by the caller's parameter" % nm, bad="%s(..) uses a built-in bound" % nm)
